@@ -135,8 +135,8 @@ PROPS = {
         level_note=NOTE + "partial: power-loss durability is outside the model; torn raw files are the recorded finding F16.", technique=TECH),
     "C07": dict(
         lean="BR.Props.C07", runs=[SCHED, F14], trusted_base=COMMON_TB + ["each index-lock region is taken as atomic and memory as touched only inside lock regions; an open file keeps its content after unlink; tempfile.Create never returns a name in use (O_EXCL): assumptions of model M5, not conclusions"], assumptions=["schedules are interleavings at the verif yield points; finer interleavings inside a lock region are excluded by the mutex"],
-        level_text="Theorems on M5 for every schedule of any number of uploads, reads, remover steps and file corruptions: the C03 index invariant holds after every step and exactly the uploads in flight hold reservations (so nothing stays reserved at quiescence); every read that returns data returns the complete bytes of one completed upload to the same key. The real Put/Get/remover are driven along generated schedules through the yield points (a released segment must reach its next gate or finish) and compared with the model on read results, reservations, entry count and recency order; quiescence oracles for accounting and directory; thorough tier under the race detector.",
-        level_note=NOTE + "partial: atomicity of lock regions and absence of data races are assumed by the model (race detector in the thorough tier); the directory invariant under interleavings is checked, not proved.", technique=TECH),
+        level_text="Theorems on M5 for every schedule of any number of uploads, reads, remover steps and file corruptions: the C03 index invariant holds after every step and exactly the uploads in flight hold reservations (so nothing stays reserved at quiescence); every read that returns data returns the complete bytes of one completed upload to the same key; the files on disk are exactly the files of the tracked entries plus the completed files of uploads that have not committed, with unique names (directory = index at quiescence). The real Put/Get/remover are driven along generated schedules through the yield points (a released segment must reach its next gate or finish) and compared with the model on read results, reservations, entry count and recency order; quiescence oracles for accounting and directory; thorough tier under the race detector.",
+        level_note=NOTE + "partial: atomicity of lock regions and absence of data races are assumed by the model (race detector in the thorough tier).", technique=TECH),
 }
 
 _root = os.path.dirname(os.path.dirname(os.path.abspath(__file__)))
